@@ -5,6 +5,7 @@ import (
 	"fmt"
 	"path/filepath"
 	"strconv"
+	"strings"
 	"time"
 	"unicode"
 )
@@ -278,7 +279,106 @@ func replayLexCase(c *Ctx, v *Violation) {
 	})
 }
 
+// every code point on its own: only the ten Bangla digits are transliterated, nothing else is altered
+func (c *Ctx) translitAllCodePoints() int64 {
+	cases := make(chan *Case, 1024)
+	go func() {
+		for cp := 0; cp <= 0x10FFFF; cp++ {
+			if cp >= 0xD800 && cp <= 0xDFFF {
+				continue
+			}
+			cases <- &Case{ID: cp, Mode: "translit", Src: string(rune(cp))}
+		}
+		close(cases)
+	}()
+	var n int64
+	err := c.Pool.Run(cases, func(cs *Case, r *Result) {
+		n++
+		want := cs.Src
+		if cs.ID >= 0x09E6 && cs.ID <= 0x09EF {
+			want = string(rune('0' + cs.ID - 0x09E6))
+		}
+		if r.Panic != "" || r.Crash != "" || r.Out2 != want {
+			c.violation("C10|translit|codepoint", fmt.Sprintf("U+%04X", cs.ID), map[string]interface{}{"mode": "translit", "src": cs.Src, "expected": want, "observed": r.Out2, "panic": r.Panic})
+		}
+	})
+	if err != nil {
+		c.infra("%v", err)
+	}
+	return n
+}
+
+func checkC10(c *Ctx) {
+	cfg := "FamNum_quick.cfg"
+	if c.Tier == "thorough" {
+		cfg = "FamNum_thorough.cfg"
+	}
+	out := filepath.Join(c.Work, "num.ndjson")
+	res := c.runTLC(TLCJob{Module: "FamNum", Cfg: cfg, OutFile: out, Timeout: 60 * time.Minute})
+	var n, nt int64
+	if res.Err == "" {
+		n, nt = c.replayLexFile(out, "literals")
+		// the same literals through the evaluator: `print <literal>;` must show a numeral denoting the correctly rounded value
+		n2 := c.replayLiteralPrints(out)
+		c.addInt("evaluations", n2)
+	}
+	cp := c.translitAllCodePoints()
+	c.addInt("traces_validated_against_impl", n+cp)
+	c.addInt("evaluations", n+cp)
+	c.cov("distinct_nontrivial", nt)
+	c.cov("exhaustive", true)
+	c.cov("rule", "every string of <= MaxLen characters over the 20 digits of both scripts and the point (exhaustive), NRandom seeded random literals of up to 400+400 digits in random script mixtures, NRandom exact halfway cases between adjacent doubles (one unit below / exactly / above) and the special thresholds (largest double, overflow, smallest subnormal, smallest normal, 2^53); every code point through the transliteration helper; expected value = BigDecimal correct rounding in the Host override; non-trivial = at least one NUMBER token or a diagnostic")
+	c.Ev.Assumptions = []string{"JVM BigDecimal.doubleValue is correctly rounded (independent of Go's strconv)", "TLC and the Host override are correct"}
+}
+
+// replayLiteralPrints: for records that are a single NUMBER token, run `print <text>;` and check the printed numeral.
+func (c *Ctx) replayLiteralPrints(path string) int64 {
+	cases := make(chan *Case, 512)
+	recs := map[int]*LexRec{}
+	go func() {
+		id := 0
+		forEachLine(path, func(line []byte) error {
+			var rec LexRec
+			if json.Unmarshal(line, &rec) != nil || len(rec.Toks) != 2 || rec.Toks[0].Ty != "NUMBER" || len(rec.Diags) > 0 {
+				return nil
+			}
+			id++
+			if id%3 != c.Seed%3 && len(rec.Text) < 6 {
+				return nil
+			}
+			c.Pool.mu.Lock()
+			recs[id] = &rec
+			c.Pool.mu.Unlock()
+			cases <- &Case{ID: id, Mode: "run", Src: keywordSpelling["print"] + " " + intsToString(rec.Text) + ";\n"}
+			return nil
+		})
+		close(cases)
+	}()
+	var n int64
+	c.Pool.Run(cases, func(cs *Case, r *Result) {
+		rec := recs[cs.ID]
+		delete(recs, cs.ID)
+		n++
+		v := &XVal{T: "num", N: rec.Toks[0].Lit.N, Bits: rec.Toks[0].Lit.Bits}
+		line := strings.TrimSuffix(r.Out, "\n")
+		why := ""
+		if r.Panic != "" || r.Crash != "" {
+			why = "abnormal termination: " + firstLine(r.Panic+r.Crash)
+		} else if len(runtimeDiags(r)) > 0 || r.HadErr {
+			why = "diagnostic for a valid literal"
+		} else {
+			why = numText(line, v, true)
+		}
+		if why != "" {
+			c.violation("C10|print-literal|"+strings.SplitN(why, " ", 2)[0], strconv.Quote(intsToString(rec.Text)), map[string]interface{}{"mode": "run", "src": cs.Src, "expected": v, "observed": r.Out, "detail": why})
+		}
+	})
+	return n
+}
+
 func init() {
+	checks["C10"] = checkC10
+	replayers["C10"] = replayLexCase
 	checks["C09"] = checkC09
 	replayers["C09"] = replayLexCase
 }
